@@ -308,7 +308,7 @@ func c19EvalExperiment(trials [][]int) [][2]string {
 }
 
 func runC19(c *Ctx) {
-	L := 5
+	L := 6
 	maxTrials, maxGens := 2, 3
 	if !c.Quick() {
 		L = 8
